@@ -58,8 +58,14 @@ def load_known():
 
 
 def known_match(findings, pid, obligation):
+    """a finding names an obligation id; `*` in it is a wildcard (nothing else is special)"""
+    import re
+
     for f in findings:
-        if f["property"] == pid and f["obligation"] == obligation:
+        if f["property"] != pid:
+            continue
+        pat = ".*".join(re.escape(part) for part in f["obligation"].split("*"))
+        if re.fullmatch(pat, obligation):
             return f
     return None
 
@@ -163,7 +169,10 @@ def main(argv=None):
         cs = [(m, c) for (m, c) in cs if a.only in c.name]
     tasks = []
     for modname, c in cs:
-        for case in c.cases():
+        import inspect
+
+        allc = c.cases(tier == "thorough") if inspect.signature(c.cases).parameters else c.cases()
+        for case in allc:
             tasks.append((modname, c.__name__, case, timeout_ms, a.seed))
     results = []
     if tasks:
@@ -300,8 +309,16 @@ def main(argv=None):
     # known-finding obligations count as not discharged
     wall = time.time() - t_start
 
+    printed = set()
     for oid, call, outc in dedup(known_seen):
-        print("KNOWN-FINDING: property=%s %s %s -> %s" % (pid, oid, call or "", (outc or "")[:160]))
+        kf = known_match(known, pid, oid)
+        key = kf["obligation"] if kf else oid
+        if key in printed:
+            continue
+        printed.add(key)
+        print("KNOWN-FINDING: property=%s %s (e.g. %s %s -> %s) %s" % (
+            pid, key, oid if key != oid else "", call or "", (outc or "")[:120],
+            (kf or {}).get("what", "")[:200]))
     for oid, path, nofail in violations:
         print("VIOLATION property=%s replay=%s obligation=%s%s" % (
             pid, path, oid, " no-failing-input-found" if nofail else ""))
